@@ -622,6 +622,7 @@ func refUnofferedSuiteUnit() harness.Unit {
 
 func refUnits() []harness.Unit {
 	var u []harness.Unit
+	u = append(u, gmECDHEServerKXUnit(gmtls.GMTLS_ECDHE_SM4_CBC_SM3), gmECDHEServerKXUnit(gmtls.GMTLS_ECDHE_SM4_GCM_SM3))
 	for _, ts := range []uint16{gmtls.GMTLS_ECC_SM4_CBC_SM3, gmtls.GMTLS_ECC_SM4_GCM_SM3, gmref.SuiteAESCBC, gmref.SuiteAESGCM} {
 		u = append(u, refTicketHelloUnitP(ts, true))
 	}
